@@ -22,11 +22,11 @@ Inductive stmt :=
 | Sub (args : list arg)   (* a CallExpr whose callee is the identifier `subinclude` *)
 | Other (id : N).         (* anything else, standalone comment blocks included *)
 
-(* the Go type the `arg.(*build.X)` assertion sees *)
+(* the Go type the `arg.( *build.X)` assertion sees *)
 Definition go_type (a : arg) : string :=
   match a with Lit _ | FStr _ => "StringExpr" | NonLit _ => "Expr" end.
 
-(* fmt.go subinclude(): for _, arg := range call.List { if _, ok := arg.(*build.StringExpr); !ok { return nil } } *)
+(* fmt.go subinclude(): for _, arg := range call.List { if _, ok := arg.( *build.StringExpr); !ok { return nil } } *)
 Definition is_string_expr (a : arg) : bool := existsb (String.eqb (go_type a)) sub_arg_types.
 
 (* fmt.go subinclude(expr): the call, or nil *)
@@ -181,7 +181,8 @@ Definition in_ranges (b : N) (rs : list (N * N)) : bool :=
    `switch next`: a listed byte is a token (or skipped white space / comment), a clause that only calls l.fail is an
    error of its own, the default clause is "Unknown symbol".  (The r"..." / f"..." prefixes are letters.) *)
 Definition lex_class (b : N) : lexclass :=
-  if in_ranges b asp_ident_start then LexIdent
+  if N.eqb b 32 then LexToken                       (* l.stripSpaces() runs first: a space never reaches the switch *)
+  else if in_ranges b asp_ident_start then LexIdent
   else if existsb (N.eqb b) (concat asp_fail_cases) then LexFail
   else if existsb (N.eqb b) (concat asp_switch_cases) then LexToken
   else LexUnknown.
